@@ -168,7 +168,12 @@ func (g *GaussianSampler) read(pol Poly, f func(a, b, c uint64) uint64) {
 			}
 
 			for j, qi := range moduli {
-				coeffs[j][i] = f(coeffs[j][i], (coeffInt*sign)|(qi-coeffInt)*(sign^1), qi)
+				// A limb can be smaller than the sampled value: reduce before negating
+				c := coeffInt
+				if c >= qi {
+					c %= qi
+				}
+				coeffs[j][i] = f(coeffs[j][i], (c*sign)|(qi-c)*(sign^1), qi)
 			}
 		}
 	}
